@@ -28,6 +28,7 @@
  *     c clone slot 0 into slot 1   C clone slot 1 into slot 1
  *     k mpt_iterator_consume(it,'d')   w documented loop (at most 40 elements)   s read as string
  *     z mpt_iterator_consume(it, 0, 0) (skip)      m conversions of the metatype itself
+ *     n text iterator metatype to 's' without target
  *     text iterators only: y element as keyword ('k')   q the same without target   x element as 'c' vector
  *     o the same without target   u element as uint32   j documented loop reading keywords   l .. reading vectors
  * Output token per op, first token is the construction result (see ml/c19_driver.ml). */
@@ -263,6 +264,7 @@ static void op_meta(int s)
 		vh_add(":%d", MPT_metatype_convert(mt, VEC_C, &vec));
 		vh_add(":%d", MPT_metatype_convert(mt, MPT_ENUM(TypeVector), &vec));
 		vh_add(":%d", MPT_metatype_convert(mt, VEC_C, 0));
+		vh_add(":%d", (int) mt->_vptr->addref(mt));
 		return;
 	}
 	if (bufkind) {
@@ -287,6 +289,7 @@ static void op_meta(int s)
 		else if (bufref && memchr(str, 0, bufref->_used - (str - (const char *) (bufref + 1)))) vh_hex(str, strlen(str));
 		else { vh_add("open:"); vh_hex(str, bufref ? bufref->_used : 0); }
 		vh_add(":%d", MPT_metatype_convert(mt, 's', 0));
+		vh_add(":%d", (int) mt->_vptr->addref(mt));
 	}
 }
 
@@ -465,6 +468,10 @@ ops:
 		case 'y': case 'q': case 'x': case 'o': case 'u': op_elem(it, op); break;
 		case 'j': case 'l': op_walk_text(it, op); break;
 		case 'm': op_meta(s); break;
+		case 'n':
+			if (!strkind) vh_tok("-");
+			else vh_tok("Sn:%d", MPT_metatype_convert(slot[s].mt, 's', 0));
+			break;
 		case 'z': vh_tok("Z:%d", mpt_iterator_consume(it, 0, 0)); break;
 		case 's': {
 			const MPT_STRUCT(value) *val = it->_vptr->value(it);
